@@ -35,35 +35,35 @@ def _c01_parts(tier):
     from sim.engines import c01
     q = tier == "quick"
     return [{"engine": "c01", "params": c01.default_params(tier), "runs": 18_000 if q else 600_000,
-             "per_fork": 1, "wall_s": 90 if q else 1200}]
+             "per_fork": 1, "wall_s": 90 if q else 1200, "run_timeout_s": 240}]
 
 
 def _c05_parts(tier):
     from sim.engines import c05
     q = tier == "quick"
     return [{"engine": "c05", "params": c05.default_params(tier), "runs": 12_000 if q else 400_000,
-             "per_fork": 1, "wall_s": 90 if q else 1200}]
+             "per_fork": 1, "wall_s": 90 if q else 1200, "run_timeout_s": 240}]
 
 
 def _c06_parts(tier):
     from sim.engines import c06
     q = tier == "quick"
     return [{"engine": "c06", "params": c06.default_params(tier), "runs": 2_200 if q else 60_000,
-             "per_fork": 1, "wall_s": 120 if q else 1500, "run_timeout_s": 120}]
+             "per_fork": 1, "wall_s": 120 if q else 1500, "run_timeout_s": 240}]
 
 
 def _c14_parts(tier):
     from sim.engines import c14
     q = tier == "quick"
     return [{"engine": "c14", "params": c14.default_params(tier), "runs": 12_000 if q else 400_000,
-             "per_fork": 1, "wall_s": 90 if q else 1500, "run_timeout_s": 180}]
+             "per_fork": 1, "wall_s": 90 if q else 1500, "run_timeout_s": 240}]
 
 
 def _c04_parts(tier):
     from sim.engines import c04
     q = tier == "quick"
     return [{"engine": "c04", "params": c04.default_params(tier), "runs": 14_000 if q else 400_000,
-             "per_fork": 1, "wall_s": 90 if q else 1500}]
+             "per_fork": 1, "wall_s": 90 if q else 1500, "run_timeout_s": 240}]
 
 
 RENDER_REAL_CACHE = {
@@ -75,14 +75,14 @@ def _c19_parts(tier):
     from sim.engines import c19
     q = tier == "quick"
     return [{"engine": "c19", "params": c19.default_params(tier), "runs": 10_000 if q else 300_000,
-             "per_fork": 1, "wall_s": 90 if q else 1500}]
+             "per_fork": 1, "wall_s": 90 if q else 1500, "run_timeout_s": 240}]
 
 
 def _c07_parts(tier):
     from sim.engines import c07
     q = tier == "quick"
     return [{"engine": "c07", "params": c07.default_params(tier), "runs": 5_000 if q else 200_000,
-             "per_fork": 1, "wall_s": 120 if q else 1800, "run_timeout_s": 180}]
+             "per_fork": 1, "wall_s": 120 if q else 1800, "run_timeout_s": 240}]
 
 
 def _c07_derive(stats, runs):
@@ -110,14 +110,14 @@ def _c16_parts(tier):
     from sim.engines import media
     q = tier == "quick"
     return [{"engine": "media", "params": media.default_params(tier), "runs": 30_000 if q else 800_000,
-             "per_fork": 1, "wall_s": 90 if q else 1500}]
+             "per_fork": 1, "wall_s": 90 if q else 1500, "run_timeout_s": 240}]
 
 
 def _c03_parts(tier):
     from sim.engines import c03
     q = tier == "quick"
     return [{"engine": "c03", "params": c03.default_params(tier), "runs": 16_000 if q else 500_000,
-             "per_fork": 1, "wall_s": 90 if q else 1500}]
+             "per_fork": 1, "wall_s": 90 if q else 1500, "run_timeout_s": 240}]
 
 
 SPECS = {
